@@ -86,14 +86,15 @@ def stripWs (sp : Char → Bool) (t : Text) : Text :=
 /-- `int(s, 16)` for ASCII input: optional surrounding whitespace, sign, `0x`/`0X` prefix
     (an underscore may follow the prefix), hex digits with single inner underscores.
     `none` = ValueError. -/
-def pyIntHex (sp : Char → Bool) (s : Text) : Option Int :=
-  let t := stripWs sp s
+def pyIntHexCore (t : Text) : Option Int :=
   let neg := t.head? == some '-'
   let t1 := if t.head? == some '-' || t.head? == some '+' then t.drop 1 else t
   let hasPrefix := t1.head? == some '0' && (t1[1]? == some 'x' || t1[1]? == some 'X')
   let t2 :=
     if hasPrefix then (if (t1.drop 2).head? == some '_' then t1.drop 3 else t1.drop 2) else t1
   (hexDigits? false 0 t2).map fun n => if neg then -(n : Int) else (n : Int)
+
+def pyIntHex (sp : Char → Bool) (s : Text) : Option Int := pyIntHexCore (stripWs sp s)
 
 /-- `_color_name_to_rgb(color)`: `(rgb >> 16) & 0xFF, (rgb >> 8) & 0xFF, rgb & 0xFF` -/
 def colorNameToRgb (sp : Char → Bool) (color : Text) : Option RGB :=
